@@ -650,6 +650,8 @@ def random_request(rng, keys):
     r = rng.random()
     if r < 0.25:
         return rng.choice(keys)
+    if r < 0.28:
+        return rng.choice(([], [[]], [[], []], [[], [rng.choice(keys)]]))     # nothing (or almost nothing) requested
     k = rng.randint(1, min(5, len(keys)))
     flat = [rng.choice(keys) for _ in range(k)]
     if r < 0.6:
